@@ -7,6 +7,7 @@
                                     uses from now on (upper nibble of tag.idm[0]) and tag.sys
      Begin(m) | FBegin(ver, wipe)   the call (tag.ndef.octets = m / tag.format(ver, wipe))
      W(sc, bl, data, ok)            every Write Without Encryption command that reached the tag
+     Drop(sysn, sc, bl, data)       one transmission of a write command did not reach the tag (transient outage)
      Cut                            the tag stopped answering
      Ret(res, cap)                  how the call ended, the capacity nfcpy reported before it
      View(k, v, cap, wr, reads, attr, blocks, oth)  fresh reader's result (octets, capacity,
@@ -25,7 +26,7 @@
 EXTENDS T3Tag, Json, IOUtils, TLCExt
 
 VARIABLES tid, l
-tvars == <<tag, ridm, tag0, phys, pc, op, msg, ra, i, ncmd, last, tid, l>>
+tvars == <<tag, ridm, tag0, phys, pc, op, msg, ra, i, ncmd, nd, last, tid, l>>
 
 Traces == ndJsonDeserialize(IOEnv.TRACE_FILE)
 T == Traces[tid].ev
@@ -45,7 +46,7 @@ TInit ==
     /\ ridm = I0.ract
     /\ tag0 = tag
     /\ phys = [nbr |-> I0.phys.nbr, nbw |-> I0.phys.nbw]
-    /\ pc = "fresh" /\ op = "none" /\ msg = <<>> /\ ra = 0 /\ i = 0 /\ ncmd = 0 /\ last = NoCmd
+    /\ pc = "fresh" /\ op = "none" /\ msg = <<>> /\ ra = 0 /\ i = 0 /\ ncmd = 0 /\ nd = 0 /\ last = NoCmd
 
 Ev == T[l]
 IsEv(a) == l <= Len(T) /\ Ev.a = a /\ l' = l + 1 /\ UNCHANGED tid
@@ -57,11 +58,11 @@ EvCmd == [sysn |-> Ev.sysn, sc |-> Ev.sc, bl |-> Ev.bl,
 ExpCmd == IF pc \in {"w_on", "w_data"} THEN WriteCmd
           ELSE IF pc \in {"f_probe", "f_attr", "f_wipe"} THEN FormatCmd ELSE NoCmd
 
-Terminal == {"done", "cut", "rejected", "refused", "error", "fdone", "ffalse"}
+Terminal == {"done", "cut", "failed", "rejected", "refused", "error", "fdone", "ffalse"}
 ExpRes == CASE pc = "done" -> "ok"
             [] pc = "rejected" -> "rejected"
             [] pc = "refused" -> "refused"
-            [] pc \in {"cut", "error"} -> "tagerr"
+            [] pc \in {"cut", "error", "failed"} -> "tagerr"
             [] pc = "fdone" -> "true"
             [] pc = "ffalse" -> "false"
             [] OTHER -> "?"
@@ -69,15 +70,24 @@ ExpRes == CASE pc = "done" -> "ok"
 GDisc   == IsEv("Disc") /\ Discover
 GBegin  == IsEv("Begin") /\ Begin(Ev.m)
 GFBegin == IsEv("FBegin") /\ FBegin(Ev.ver, Ev.wipe)
-GW      == IsEv("W") /\ (WriteStep(EvCmd) \/ FormatStep(EvCmd))
+\* a command that reaches the tag although the modelled writer has given up: it is applied (the invariants
+\* judge the result) and never conforms
+Stray(c) ==
+    /\ pc = "failed"
+    /\ ncmd' = ncmd + 1 /\ last' = c
+    /\ tag' = IF TagOk(tag, phys, c) THEN TagApply(tag, c) ELSE tag
+    /\ UNCHANGED <<ridm, tag0, phys, pc, op, msg, ra, i, nd>>
+GW      == IsEv("W") /\ (WriteStep(EvCmd) \/ FormatStep(EvCmd) \/ Stray(EvCmd))
+GDrop   == IsEv("Drop") /\ Drop
 GCut    == IsEv("Cut") /\ PowerCut
 GRet    == IsEv("Ret") /\ pc \in Terminal /\ UNCHANGED vars
 GView   == IsEv("View") /\ pc \in Terminal \cup {"idle", "fresh"} /\ UNCHANGED vars
-Guarded == GDisc \/ GBegin \/ GFBegin \/ GW \/ GCut \/ GRet \/ GView
+Guarded == GDrop \/ GDisc \/ GBegin \/ GFBegin \/ GW \/ GCut \/ GRet \/ GView
 
 \* the real command is the one the modelled procedure issues, and the tag accepted it iff TagOk
 Conform ==
     CASE Ev.a = "Disc" -> Ev.ridm = tag.card.pos /\ Ev.sys = 4860          \* 12FCh
+      [] Ev.a = "Drop" -> EvCmd.sysn = ExpCmd.sysn /\ EvCmd.sc = ExpCmd.sc /\ EvCmd.bl = ExpCmd.bl /\ EvCmd.dat = ExpCmd.dat
       [] Ev.a = "W" -> /\ EvCmd.sysn = ExpCmd.sysn /\ EvCmd.sc = ExpCmd.sc /\ EvCmd.bl = ExpCmd.bl /\ EvCmd.dat = ExpCmd.dat
                        /\ Ev.ok = TagOk(tag, phys, EvCmd)
       [] Ev.a = "Ret" -> Ev.res = ExpRes /\ (op = "write" => Ev.cap = RepCap(tag0))
